@@ -4,6 +4,7 @@ import (
 	"crypto/rand"
 	"crypto/sha256"
 	"encoding/binary"
+	"errors"
 	"net"
 	"sync"
 	"sync/atomic"
@@ -43,7 +44,13 @@ type server struct {
 	hsdrops  int              // incoming connections still to be closed during the handshake
 	mute     map[string]bool  // ports on which the server answers nothing (silence scenario)
 	nHsDrop  int
-	wg       sync.WaitGroup
+	// outage: from the first connection attempt after it was armed, every attempt is closed during its handshake
+	// for outageFor; then the server accepts again (same address, same key)
+	outageFor   time.Duration
+	outageStart time.Time
+	outageEnd   time.Time
+	nCorrupt    atomic.Int64 // frames of the client that did not decrypt to a valid frame
+	wg          sync.WaitGroup
 }
 
 func newScriptedServer(rec *recorder, seedText string, seed int64, scripted int) (*server, error) {
@@ -70,6 +77,15 @@ func (sv *server) acceptLoop() {
 		drop := sv.hsdrops > 0
 		if drop {
 			sv.hsdrops--
+		} else if sv.outageFor > 0 {
+			if sv.outageStart.IsZero() {
+				sv.outageStart = time.Now()
+				sv.outageEnd = sv.outageStart.Add(sv.outageFor)
+				sv.cond.Broadcast()
+			}
+			drop = time.Now().Before(sv.outageEnd)
+		}
+		if drop {
 			sv.nHsDrop++
 		}
 		n := sv.nHsDrop
@@ -110,6 +126,11 @@ func (sv *server) serve(c *adnlsrv.Conn, port string) {
 	for {
 		pl, err := c.ReadPacket()
 		if err != nil {
+			if errors.Is(err, adnlsrv.ErrChecksum) || errors.Is(err, adnlsrv.ErrBadLength) {
+				// the bytes the client wrote are not a sequence of valid frames of its own stream
+				sv.nCorrupt.Add(1)
+				sv.rec.emit(map[string]any{"k": "srv.corrupt", "port": port})
+			}
 			sv.closeLink(l, false)
 			return
 		}
